@@ -58,8 +58,16 @@ def write_inputs(path, model):
 
 
 def describe_inputs(model):
+    """inputs that differ from the model's default value (the solver fills untouched indices with one value)"""
     import struct
+    import collections
     d = {}
+    model = dict(model)
+    for kind in ('f64', 'u64'):
+        vals = model[kind]
+        if len(vals) > 8:
+            common = collections.Counter(vals.values()).most_common(1)[0][0]
+            model[kind] = {k: v for k, v in vals.items() if v != common}
     for k, v in sorted(model['f64'].items()):
         if v[0] == 'bits':
             d[f'f{k}'] = repr(struct.unpack('<d', struct.pack('<Q', v[1]))[0])
